@@ -42,7 +42,7 @@ var notLFTable = func() (t [256]bool) {
 func buildLine(k int, keys []string, detailed *int) keyLine {
 	id := string(rune('0' + k))
 	stride := V.Param("stride", 1)
-	switch V.Int("kind"+id, 0, 7) {
+	switch V.Int("kind"+id, 0, 8) {
 	case 0:
 		return keyLine{text: []byte(keys[0]), key: keys[0]}
 	case 1:
@@ -72,6 +72,19 @@ func buildLine(k int, keys []string, detailed *int) keyLine {
 		return keyLine{text: []byte(" " + keys[0]), bad: true}
 	case 6:
 		return keyLine{text: []byte(keys[0] + " "), bad: true}
+	case 8: // a '#' that is not in column one does not make a comment: blank(s), '#', 0..1 bytes
+		t := []byte{' ', '#'}
+		if V.Bool("tab" + id) {
+			t[0] = '\t'
+		}
+		if V.Bool("two" + id) {
+			t = append([]byte{' '}, t...)
+		}
+		c := V.Bytes("ic"+id, V.Int("il"+id, 0, 1))
+		for _, x := range c {
+			V.Assume(notLFTable[x])
+		}
+		return keyLine{text: append(t, c...), bad: true}
 	}
 	// truncated key
 	V.Assume(*detailed == 0)
